@@ -127,7 +127,8 @@ def layout_obligation(run, prop, rule, repo, sc, res, entry, scen):
 
 
 def stale_obligation(run, prop, rule, repo, sc, entry, scen, mods=None):
-    st = sc.events('stale-read')
+    # stale environments, and arrays read after a destructive library flag (overwrite_a / overwrite_b) allowed a routine to overwrite them
+    st = sc.events('stale-read') + sc.events('use-after-destroy')
     run.oblige(rule, (entry, scen, 'stale'), not st)
     for e in st:
         where, cons, f, ln = ev_where(repo, e, mods)
